@@ -154,13 +154,29 @@ impl Prop for C08 {
                 let mut st = ValveState::generate(&mut t, false, false, if goldsrc { None } else { Some(440) }, 40, 60);
                 st.fit(goldsrc);
                 let kind = *t.pick(CFG, &[Kind::Rules, Kind::Rules, Kind::Players, Kind::Info]);
+                // Source only, one case in three: the answer travels as a bzip2-compressed split response
+                // (state and compressed form from the python-built pool)
+                let compressed = if !goldsrc && kind != Kind::Info && t.draw(CFG, 3) == 0 { st.adopt_pool_entry(&mut t, kind == Kind::Rules) } else { None };
                 let mut srv = ValveServer::new(st.clone());
                 srv.goldsrc_transport = goldsrc;
                 // the specification gives every answer its own id: keep the target's id apart from the
                 // ids the running server assigns to its other split answers (base + 1, + 2, + 3)
                 srv.split_id = (st.split_id_base + 0x100 + t.draw(CFG, 0x1000) as u32) & 0x7fff_ffff;
                 let payload = srv.payload_for(kind);
-                let enc = KindEnc { challenge_rounds: 0, split: if goldsrc { Split::GoldSrc } else { Split::Source { with_size: true } }, frags: n_want, order: None, dup: None };
+                let is_compressed = compressed.is_some();
+                if is_compressed {
+                    out.probe("compressed_split_target");
+                }
+                srv.current_kind = kind.idx();
+                srv.compressed[kind.idx()] = compressed;
+                let split = if goldsrc {
+                    Split::GoldSrc
+                } else if is_compressed {
+                    Split::SourceCompressed
+                } else {
+                    Split::Source { with_size: true }
+                };
+                let enc = KindEnc { challenge_rounds: 0, split, frags: n_want, order: None, dup: None };
                 let mut d = |b: u64| t.draw(DATA, b);
                 let frags = srv.encode(&payload, &enc, &mut d);
                 let gs = GatheringSettings { players: GatherToggle::Enforce, rules: GatherToggle::Enforce, check_app_id: false };
